@@ -1,11 +1,11 @@
 SPECIFICATION Spec
 CONSTANTS SeedLeaves = 3
- MaxLeaves = 3
+ MaxLeaves = 4
  PropMembers = 3
- MaxMembers = 3
- MaxNnfSize = 9
+ MaxMembers = 4
+ MaxNnfSize = 11
  MaxNum = 4
- Rich = FALSE
+ Rich = TRUE
 INVARIANT TypeInv
 INVARIANT PolyPreserved
 INVARIANT MembersPreserved
